@@ -290,7 +290,10 @@ type voWorld struct {
 	ly net.Listener
 
 	// --- both ---
-	s         *Store // the node while it is open
+	entry     string
+	choices   []string // the history, as chosen
+	obs       []string // what was observed along it (model conformance, see conformance_test.go)
+	s         *Store   // the node while it is open
 	selfAddr  string
 	electable bool
 }
@@ -1632,6 +1635,68 @@ func (w *voWorld) walHoldsWrites() bool {
 	}
 	st, err := os.Stat(w.dbPath() + "-wal")
 	return err == nil && st.Size() > 0
+}
+
+// ---------------------------------------------------------------------------------------------
+// Model conformance. Along every path the engine run prints (VERIF_PRINT=1) the history and a line
+// of observations that both worlds can make; conformance_test.go replays sampled histories on the
+// real node and compares (see there). Nothing here takes part in the oracle.
+
+var voObsHook func(choices, obs []string)
+
+func voTagString(tags []int) string {
+	s := "["
+	for i, t := range tags {
+		if i > 0 {
+			s += " "
+		}
+		s += voItoa(t)
+	}
+	return s + "]"
+}
+
+func voBoolString(b bool) string {
+	if b {
+		return "yes"
+	}
+	return "no"
+}
+
+// observeDown: the node is down (after the shutdown and whatever happened to the files).
+func (w *voWorld) observeDown() {
+	w.obs = append(w.obs, "down: marker-vouches="+voBoolString(w.markerVouchesForMainFile())+" wal-holds-writes="+voBoolString(w.walHoldsWrites()))
+}
+
+// observeUp: the node is up again and has caught up with its own log.
+func (w *voWorld) observeUp() {
+	tags, _ := w.liveTags()
+	var first, last uint64
+	if verifSymbolic() {
+		if len(w.ents) > 0 {
+			first, last = w.first, w.lastIdx()
+		}
+	} else {
+		var err error
+		first, last, err = w.s.boltStore.Indexes()
+		if err != nil {
+			panic(err)
+		}
+	}
+	w.obs = append(w.obs, "up: tags="+voTagString(tags)+" newest-snapshot="+voItoa(int(w.newestSnapshotIndex()))+
+		" log="+voItoa(int(first))+"-"+voItoa(int(last))+" fsm-index="+voItoa(int(w.s.fsmIdx.Load()))+
+		" restore-skipped="+voBoolString(w.s.numSnapshotsSkipped.Load() > 0)+
+		" marker-vouches="+voBoolString(w.markerVouchesForMainFile()))
+}
+
+// report: end of a path that kept every promise.
+func (w *voWorld) report() {
+	if verifSymbolic() {
+		println("CONFORMANCE", w.entry, strings.Join(w.choices, ","), "|", strings.Join(w.obs, " ; "))
+		return
+	}
+	if voObsHook != nil {
+		voObsHook(w.choices, w.obs)
+	}
 }
 
 // reachMarkers (engine): which ways through Open / raft's start this path took.
